@@ -159,8 +159,10 @@ func (m *c16machine) encodeRawBlock(rev int) {
 	}
 }
 
-func encodeRefColumn(t *ref.Type, vals []ref.Val) []byte {
-	e := &ref.Enc{NoMap: true}
+func encodeRefColumn(t *ref.Type, vals []ref.Val) []byte { return encodeRefColumnBump(t, vals, 0) }
+
+func encodeRefColumnBump(t *ref.Type, vals []ref.Val, bump int) []byte {
+	e := &ref.Enc{NoMap: true, LCBump: bump}
 	if len(vals) > 0 {
 		ref.EncodeState(e, t)
 	}
@@ -185,10 +187,14 @@ func libDecodeColumn(col proto.ColResult, data []byte, rows int) error {
 func (m *c16machine) decodeValid() {
 	rows := gen.RowCount().Draw(m.rt, "decode-rows")
 	vals := gen.DrawRows(m.rt, m.k, rows)
-	data := encodeRefColumn(m.k.T, vals)
+	bump := 0
+	if m.k.T.HasLC() {
+		bump = rapid.IntRange(0, 3).Draw(m.rt, "lc-key-width-bump")
+	}
+	data := encodeRefColumnBump(m.k.T, vals, bump)
 	m.col.Column().Reset()
 	if err := libDecodeColumn(m.col.Column(), data, rows); err != nil {
-		m.fail("Reset + DecodeColumn of %d valid rows: %v", rows, err)
+		m.fail("Reset + DecodeColumn of %d valid rows (LowCardinality keys widened by %d): %v", rows, bump, err)
 	}
 	if len(m.log) > 0 {
 		m.decodedInto = true
@@ -210,6 +216,32 @@ func (m *c16machine) decodeValid() {
 	if j, ok := ref.EqualRows(m.k.T, fv, uv); !ok {
 		m.fail("decode into the reused column differs from decode into a fresh one at row %d", j)
 	}
+}
+
+// decodeBlock decodes a whole block (possibly with zero rows) into the used column through
+// Results.DecodeResult, which is how columns are reused between result blocks.
+func (m *c16machine) decodeBlock() {
+	rows := gen.RowCount().Draw(m.rt, "block-rows")
+	vals := gen.DrawRows(m.rt, m.k, rows)
+	rev := rapid.SampledFrom(blockRevs).Draw(m.rt, "rev")
+	e := &ref.Enc{NoMap: true}
+	if m.k.T.HasLC() {
+		e.LCBump = rapid.IntRange(0, 3).Draw(m.rt, "lc-key-width-bump")
+	}
+	ref.EncodeBlock(e, rev, &ref.Block{Info: ref.BlockInfo{BucketNum: -1}, Columns: []ref.Column{{Name: "c", T: m.k.T, Rows: vals}}})
+	res := proto.Results{{Name: "c", Data: m.col.Column()}}
+	var b proto.Block
+	r := readerOf(e.B)
+	if err := safely(func() error { return b.DecodeBlock(r, rev, res) }); err != nil {
+		m.fail("DecodeBlock of %d rows into the used column: %v", rows, err)
+	}
+	if len(m.log) > 0 {
+		m.decodedInto = true
+	}
+	m.note("blockdecode(%d)", rows)
+	m.model = vals
+	m.prepares = 0
+	m.newSince = false
 }
 
 func (m *c16machine) decodeFailing() {
@@ -282,6 +314,7 @@ func TestC16ReuseStateMachine(t *testing.T) {
 			"writeColumn": func(rt *rapid.T) { m.writeColumn() },
 			"rawBlock":    func(rt *rapid.T) { m.encodeRawBlock(rapid.SampledFrom(blockRevs).Draw(rt, "rev")) },
 			"decode":      func(rt *rapid.T) { m.decodeValid() },
+			"decodeBlock": func(rt *rapid.T) { m.decodeBlock() },
 			"failedDecode": func(rt *rapid.T) {
 				m.decodeFailing()
 			},
